@@ -175,6 +175,17 @@ CHECKS = {
             'The clauses "to interpolation accuracy" (transmitted power, propagated image) are NOT decided by the model: numeric leaf on '
             'Gaussian apertures (2e-2 / 3e-2). n*s integer with a non-dyadic factor is a ceil tie.',
             'bookkeeping arithmetic model-checked by TLC; TLC-enumerated cases replayed into lentil'),
+    'C18': ('model_checking',
+            'Rng.tla is a trace specification: seeded models are functions of (arguments, seed) - history variables memo / seen give '
+            'SeedDeterminism and SeedSensitivity -, only the cosmic-ray model may touch numpy\'s global generator (RngIsolation), and a '
+            'table states which observations each callable must satisfy (support, integer values, floor(rate) without pattern noise, zero '
+            'outside the mask, exact RMS, rejection of negative / unrepresentable signals). Sessions with repeated and different seeds '
+            '(incl. 0 and sequences), perturbed global state, masks of five aspect ratios and 64 [256] enumerated global seeds for cosmic '
+            'rays are recorded on lentil and validated by TLC.',
+            'DESIGN.md 5 C18',
+            'Trusted: predicates evaluated by the recorder on the returned frames; byte digests identify draws. Mean / variance / standard '
+            'deviation clauses are statistical and NOT decided by the model (6-sigma numeric leaf on 400x400 frames with fixed seeds).',
+            'trace validation by TLC against a TLA+ specification of seeded randomness'),
     'C20': ('model_checking',
             'Geometry.tla defines pad/crop (2-D and cubes), sub-array, bounding box, bounding slice with pad and clipping, slice '
             'offset, rebin, centroid (exact rational), mesh, the half-turn / mirror / translation index maps of drawn shapes and '
